@@ -47,10 +47,10 @@ def run(chk):
         'abstract pre-state) table-changing steps')
     chk.mc('MC_Core2', 'MC_Core2.cfg')
     n = tlcrun.NCPU
-    per = 8 if q else 300
+    per = chk.th(8, 300)
     tasks = [dict(shard=chk.shard('auto_%d' % i), first_tid=i * per, ntraces=per,
                   seed=chk.seed, nvars_choices=[2, 3, 4, 5],
-                  steps=100 if q else 250) for i in range(n)]
+                  steps=chk.th(100, 250)) for i in range(n)]
     sh, _ = chk.generate(auto_task, tasks)
     chk.validate('TraceBDD', 'TraceBDD.cfg', sh)
     chk.canary('TraceBDD', 'TraceBDD.cfg', sh[0], common.corrupt_ref_count, 'ref.exact')
